@@ -54,7 +54,7 @@ from oqupy.tempo import TempoParameters
 from oqupy.tempo import guess_tempo_parameters
 from oqupy.tempo import influence_matrix
 from oqupy.operators import left_right_super
-from oqupy.util import get_progress
+from oqupy.util import count_time_steps, get_progress
 
 
 PT_CLASS = {"simple": SimpleProcessTensor}
@@ -145,7 +145,8 @@ class PtTempo(BaseAPIClass):
         self._coupling_comm = self._bath._coupling_comm
         self._coupling_acomm = self._bath._coupling_acomm
 
-        tmp_num_steps = int((end_time - self._start_time)/self._parameters.dt)
+        tmp_num_steps = count_time_steps(
+            self._start_time, end_time, self._parameters.dt)
         assert tmp_num_steps >= 2, \
             "Parameter `end_time` must be more than two times steps " \
             + "larger than the parameter `start_time`!"
